@@ -25,14 +25,14 @@ ASSUMPTIONS = ['the filter / weight model in this file is written from the optio
                'XA strings end with ";" as bwa writes them: the weight is divided over the alternative hits plus the reported one',
                'blacklist intervals are longer than a read and their edges are >=2 bp away from read ends (boundary coincidences are don\'t-care)',
                '--splitFeatures together with -byValue is documented as not implemented and not generated']
-MIN_NONTRIVIAL = {'quick': 150, 'thorough': 3000}
+MIN_NONTRIVIAL = {'quick': 100, 'thorough': 12000}
 REQUIRED_MONITORS = ['ret:create_count_table', 'oracle:cells_compared', 'opt:dedup', 'opt:no_indels', 'opt:no_softclips', 'opt:divideMultimapping',
                      'opt:byValue', 'opt:bedfile', 'opt:blacklist', 'opt:contig', 'opt:filterXA', 'opt:filterMP', 'reads:filtered_out', 'reads:half_weight']
 SHARD_TIMEOUT = {'quick': 900, 'thorough': 5400}
 
 
 def gen_cases(tier, seed):
-    n = 320 if tier == 'quick' else 5000
+    n = 320 if tier == 'quick' else 40000
     return [{'i': i, 'seed': seed} for i in range(n)]
 
 
